@@ -1,3 +1,4 @@
+import Witverif.Generated.ScalarExprs
 import Witverif.Props.C14.Rust
 import Witverif.Props.C14.C
 import Witverif.Props.C14.Cpp
